@@ -119,10 +119,17 @@ def check_program(key, src, attempts_fn, inputs, routine="s", horizon=100000,
         if bad:
             tname = type(trans).__name__
             where = ",".join(b[0] for b in bad)
+            short = where
+            if len(short) > 40:
+                # long lists of failing inputs: count + checksum keep the
+                # signature sensitive to any change of the failing set
+                import zlib
+                short = (f"{len(bad)}of{len(orig)}inputs#"
+                         f"{zlib.crc32(where.encode()) & 0xffffffff:08x}")
             viol.append({
                 "key": f"{key}|{att.label}",
                 "sig": (sig_fn(tname, att.label, key, [b[0] for b in bad])
-                        if sig_fn else f"{att.label}|{key}|bad@{where}"),
+                        if sig_fn else f"{att.label}|{key}|bad@{short}"),
                 "group": tname,
                 "msg": f"{att.label} accepted on program {key}; wrong on inputs "
                        f"{where}; e.g. input {bad[0][0]}: {bad[0][1]}.\n"
